@@ -344,8 +344,9 @@ func checkC10(w *World, st core.Status, r *RunResult) []Violation {
 		if proto == PConnect {
 			expressible = d/time.Millisecond < time.Duration(pow10(10))
 			if d < time.Millisecond {
+				// expressible as 0: not longer than the time remaining, short by
+				// less than the granularity - and the handler gets a deadline
 				r.Probes["connect_sub_millisecond"]++
-				continue // not expressible; the statement pins no behaviour
 			}
 		}
 		if len(hv) == 0 {
